@@ -88,14 +88,12 @@ func hasLoops(fn *ssa.Function) bool {
 	return false
 }
 
-func (fx *fnExec) callStatic(callee *ssa.Function, args []Val, bindings []Val, st *State, pos token.Pos, rt types.Type) Val {
+func (fx *fnExec) callStatic0(callee *ssa.Function, args []Val, bindings []Val, st *State, pos token.Pos, rt types.Type) Val {
 	ex := fx.ex
 	name := callee.String()
 	if noopFuncs[name] {
 		return Val{}
 	}
-	// ghost/assert hooks at this call site
-	fx.callSiteHooks(callee, args, st, pos)
 	if m, ok := stdModels[name]; ok {
 		ex.TrustedUsed["model:"+name] = true
 		return m(fx, args, st, pos, rt)
@@ -204,6 +202,13 @@ func (fx *fnExec) applyContract(c *Contract, callee *ssa.Function, args []Val, s
 		loc := env.evalLoc(m)
 		fx.havocLoc(st, loc)
 	}
+	for _, m := range c.Preserves {
+		loc := env.evalLoc(m)
+		if loc.Kind != "ptr" {
+			fail("preserves %s: only pointer locations are supported", m.Src)
+		}
+		fx.store(st, loc.Ptr, fx.load(old, loc.Ptr))
+	}
 	// results
 	var res Val
 	sig := callee.Signature.Results()
@@ -310,15 +315,26 @@ type Loc struct {
 	Ptr   *MetaPtr
 	Slice Val
 	Val   Val
+	Guard *Term // the base pointer is non-nil (nil: unconditional)
 }
 
 func (fx *fnExec) havocLoc(st *State, loc Loc) {
 	ex := fx.ex
 	switch loc.Kind {
 	case "ptr":
+		if loc.Guard != nil && loc.Guard.IsFalse() {
+			return // location behind a nil pointer: nothing to modify
+		}
 		mp := ex.resolve(loc.Ptr)
 		cur := fx.load(st, mp)
 		nv := fx.freshOf("mod", cur.T, st)
+		if loc.Guard != nil && !loc.Guard.IsTrue() {
+			nc := make([]*Term, len(nv.C))
+			for k := range nv.C {
+				nc[k] = Ite(loc.Guard, nv.C[k], cur.C[k])
+			}
+			nv = Val{T: nv.T, C: nc}
+		}
 		fx.store(st, mp, nv)
 	case "elems":
 		s := loc.Slice
@@ -370,7 +386,7 @@ func (fx *fnExec) callSiteHooks(callee *ssa.Function, args []Val, st *State, pos
 		fx.oblige(fmt.Sprintf("assertcall.%s.%d#%d", a.Callee, i+1, fx.callCount["assert:"+a.Callee]), "assertcall", st, t, pos, a.Cond.Src)
 	}
 	for _, g := range fx.c.Ghost {
-		if !match(g.Callee) {
+		if !match(g.Callee) || g.After {
 			continue
 		}
 		env := fx.specEnv(st, fx.entry, nil)
